@@ -35,6 +35,15 @@ def step (_ : Unit) (fields : List String) (impl : String) : Unit × Reply :=
       let known := if knownWsHost f then "F-20a" else "-"
       ((), { Reply.det model impl (model == want) (impl == want) with known := known })
     | _, _, _ => ((), .bad)
+  | ["split", h] =>
+    -- the model of net.SplitHostPort against the real one, on any string (correspondence only)
+    match dec h with
+    | some a =>
+      let m := match splitHostPort a with
+        | some (ho, po) => "ok " ++ enc ho ++ " " ++ enc po
+        | none => "err"
+      ((), .det m impl true true)
+    | none => ((), .bad)
   | ["transport", who, h] =>
     match dec h with
     | some a =>
